@@ -269,6 +269,13 @@ func (r *Writer) process(ops []*operation.QueuedOperation, protocolVersion uint6
 		return err
 	}
 
+	if anchoringInfo.AnchorString == "" {
+		// the operation handler has discarded every operation of the batch (expired): nothing to anchor
+		r.logger.Info("No operations left to anchor after discarding expired operations", logfields.WithTotal(len(ops)))
+
+		return nil
+	}
+
 	r.logger.Info("Writing anchor string", logfields.WithAnchorString(anchoringInfo.AnchorString))
 
 	// Create Sidetree transaction in anchoring system (write anchor string)
